@@ -383,7 +383,9 @@ def to_xml(doc, extra_head=""):
     out.append(extra_head)
 
     def emit(n):
-        if n["children"]:
+        if n.get("text") is not None:
+            out.append("<%s%s>%s</%s>" % (n["tag"], attrs_text(n), n["text"], n["tag"]))
+        elif n["children"]:
             out.append("<%s%s>" % (n["tag"], attrs_text(n)))
             for c in n["children"]:
                 emit(c)
